@@ -7,15 +7,15 @@ Open Scope string_scope.
 Open Scope list_scope.
 
 (* Full-strength statement: on EVERY well-formed circuit tree and EVERY pattern the recursion of get_nodes returns
-   the denotation of the path.  It is false of the code as it is (two lenient readings: a pattern longer than the
-   address of a node, a pattern that ends at a sub-circuit; the KeyError class D31 is repaired, D73): *)
+   the denotation of the path.  It is false of the code as it is for one lenient reading only: a pattern longer than
+   the address of a node ignores its rest (the classes D31 and "pattern ends at a sub-circuit" are repaired, D73, D87): *)
 Definition C06_full_statement : Prop := full_statement.
 Theorem C06_full_refuted : ~ C06_full_statement.
 Proof. exact full_statement_refuted. Qed.
 Print Assumptions C06_full_refuted.
 
-(* ... and true under the decidable guard `resolvable` = not too long and not too short (any depth, 'all' at any
-   level, names that some or all branches lack, any var_identifier): the result is the list of matching leaves, depth
+(* ... and true under the decidable guard `resolvable` = the pattern is not too long (any depth, 'all' at any
+   level, names that some or all branches lack, patterns that end at a circuit, any var_identifier): the result is the list of matching leaves, depth
    first in declaration order *)
 Theorem C06_get_nodes_partial : forall t v pat, wfb t = true -> resolvable t pat = true ->
   get_nodes t v pat = Ok (path_denotation t v pat).
@@ -65,11 +65,12 @@ Theorem C06_refuted_too_long : wfb flat3 = true /\
   not_too_long flat3 ["B"; "zzz"] = false.
 Proof. exact refuted_too_long. Qed.
 Print Assumptions C06_refuted_too_long.
-Theorem C06_refuted_too_short :
-  get_nodes two_branches None ["a"] = Ok [["a"]] /\ get_nodes two_branches (Some ox) ["a"] = Err IndexError /\
-  path_denotation two_branches None ["a"] = [] /\ not_too_short two_branches ["a"] = false.
-Proof. exact refuted_too_short. Qed.
-Print Assumptions C06_refuted_too_short.
+Theorem C06_too_short_before_fix :
+  get_nodes_gen nofix two_branches None ["a"] = Ok [["a"]] /\ get_nodes_gen nofix two_branches (Some ox) ["a"] = Err IndexError /\
+  get_nodes two_branches None ["a"] = Ok [] /\ get_nodes two_branches (Some ox) ["a"] = Ok [] /\
+  path_denotation two_branches None ["a"] = [] /\ not_too_short two_branches ["a"] = false /\ resolvable two_branches ["a"] = true.
+Proof. exact too_short_before_fix. Qed.
+Print Assumptions C06_too_short_before_fix.
 
 (* output stage: dict form resolves every key to the denotation of its path *)
 Theorem C06_positions_dict : forall t reqs, wfb t = true -> reqs_resolvable t reqs = true -> all_found t reqs = true ->
@@ -104,12 +105,12 @@ Print Assumptions C06_column_is_slot.
    l names.  With C06_column_is_slot that source is state slot pos(variable, unit). *)
 Theorem C06_run_returns : forall t L U f reqs, f <> ListFormOld ->
   wfb t = true -> reqs_resolvable t reqs = true -> all_found t reqs = true -> reqs <> [] ->
-  (f = DictForm -> no_pop_in_wildcard t U reqs = true) ->
   covers L U (requested t f reqs) = true ->
   run_columns t L f reqs = Ok (map (col_of L) (spec_columns t U f reqs)).
 Proof. exact run_columns_spec_asis. Qed.
 Print Assumptions C06_run_returns.
-(* the same theorem for the code before repairs D73 / D77 needed the guards names_resolve and no_overlap *)
+(* the same theorem for the code before repairs D73 / D77 / D87 / D88 needed the guards names_resolve, no_overlap,
+   not_too_short and no_pop_in_wildcard *)
 Theorem C06_run_returns_before_fix : forall t L U f reqs, f <> ListFormOld ->
   wfb t = true -> reqs_resolvable_gen nofix t reqs = true -> all_found t reqs = true -> reqs <> [] ->
   (f = DictForm -> no_overlap t reqs = true /\ no_pop_in_wildcard t U reqs = true) ->
@@ -137,16 +138,18 @@ Theorem C06_population_columns :
         (["P/op/x"; "2"], ("x_v1", 2))].
 Proof. exact population_columns. Qed.
 Print Assumptions C06_population_columns.
-Theorem C06_population_in_wildcard_refuted :
-  run_columns pop_tree L_pop DictForm [("w", (["all"], ox))] = Err ValueError /\
+Theorem C06_population_in_wildcard_before_fix :
+  run_columns_gen nofix pop_tree L_pop DictForm [("w", (["all"], ox))] = Err ValueError /\
   List.length (spec_columns pop_tree U_pop DictForm [("w", (["all"], ox))]) = 5 /\
-  no_pop_in_wildcard pop_tree U_pop [("w", (["all"], ox))] = false.
-Proof. exact population_in_wildcard_refuted. Qed.
-Print Assumptions C06_population_in_wildcard_refuted.
+  no_pop_in_wildcard pop_tree U_pop [("w", (["all"], ox))] = false /\
+  run_columns pop_tree L_pop DictForm [("w", (["all"], ox))] =
+    Ok [(["w"; "A"; "op/x"], ("x", 0)); (["w"; "B"; "op/x"], ("x", 1)); (["w"; "P"; "op/x"; "0"], ("x_v1", 0));
+        (["w"; "P"; "op/x"; "1"], ("x_v1", 1)); (["w"; "P"; "op/x"; "2"], ("x_v1", 2))].
+Proof. exact population_in_wildcard_before_fix. Qed.
+Print Assumptions C06_population_in_wildcard_before_fix.
 Example C06_run_returns_nonvacuous :
   let reqs := [("p", (["P"], ox)); ("a", (["B"], ox))] in
   wfb pop_tree = true /\ reqs_resolvable pop_tree reqs = true /\ all_found pop_tree reqs = true /\
-  no_overlap pop_tree reqs = true /\ no_pop_in_wildcard pop_tree U_pop reqs = true /\
   covers L_pop U_pop (requested pop_tree DictForm reqs) = true.
 Proof. exact run_returns_nonvacuous. Qed.
 Print Assumptions C06_run_returns_nonvacuous.
@@ -194,17 +197,3 @@ Theorem C06_edge_paths_same_variable : forall (V : Type) (vadd vmul : V -> V -> 
   edge_deriv_impl V vadd vmul vzero L row es tv = edge_deriv_spec V vadd vmul vzero val es tv.
 Proof. exact edge_paths_same_variable. Qed.
 Print Assumptions C06_edge_paths_same_variable.
-
-(* the same two headline theorems for the code WITH the two further proposed repairs (fixes/proposed_fix_C06_short.diff,
-   _popwild.diff): a pattern that ends at a sub-circuit denotes nothing, a population inside a dict-form wildcard key is
-   split into one column per unit; the guards not_too_short and no_pop_in_wildcard are gone *)
-Theorem C06_get_nodes_after_proposed_repairs : forall t v pat, wfb t = true -> resolvable_gen allfixes t pat = true ->
-  get_nodes_gen allfixes t v pat = Ok (path_denotation t v pat).
-Proof. exact (get_nodes_correct allfixes). Qed.
-Print Assumptions C06_get_nodes_after_proposed_repairs.
-Theorem C06_run_returns_after_proposed_repairs : forall t L U f reqs, f <> ListFormOld ->
-  wfb t = true -> reqs_resolvable_gen allfixes t reqs = true -> all_found t reqs = true -> reqs <> [] ->
-  covers L U (requested t f reqs) = true ->
-  run_columns_gen allfixes t L f reqs = Ok (map (col_of L) (spec_columns t U f reqs)).
-Proof. exact run_columns_spec_allfixes. Qed.
-Print Assumptions C06_run_returns_after_proposed_repairs.
